@@ -234,10 +234,11 @@ func c06Subst(n ast.Node, sub map[string]ast.Expr) {
 		if id, ok := e.(*ast.Ident); ok {
 			if r, ok := sub[id.Name]; ok {
 				c := c06CopyExpr(r)
-				if _, plain := c.(*ast.Ident); plain {
-					return c
+				switch c.(type) {
+				case *ast.BinaryExpr, *ast.UnaryExpr, *ast.StarExpr, *ast.TypeAssertExpr, *ast.FuncLit, *ast.KeyValueExpr:
+					return &ast.ParenExpr{X: c}
 				}
-				return &ast.ParenExpr{X: c}
+				return c
 			}
 		}
 		return e
@@ -555,6 +556,11 @@ func (n *c06Norm) block(l []ast.Stmt) []ast.Stmt {
 		case *ast.AssignStmt:
 			if x.Tok == token.DEFINE && len(x.Lhs) == 1 && len(x.Rhs) == 1 {
 				if id, ok := x.Lhs[0].(*ast.Ident); ok && id.Name != "_" {
+					// t := e, used once, in the statement that follows: a temporary
+					if i+1 < len(l) && c06SingleUseTemp(id.Name, x.Rhs[0], l[i+1], l[i+2:]) {
+						c06Subst(l[i+1], map[string]ast.Expr{id.Name: x.Rhs[0]})
+						continue
+					}
 					// b := <condition>: a named condition
 					if c06IsCondExpr(x.Rhs[0]) && c06OnlyRead(id.Name, x.Rhs[0], l[i+1:]) {
 						c06Subst(&ast.BlockStmt{List: l[i+1:]}, map[string]ast.Expr{id.Name: x.Rhs[0]})
@@ -613,6 +619,85 @@ func c06IsNotNilTest(c ast.Expr, v string) bool {
 	}
 	id, ok := be.X.(*ast.Ident)
 	return ok && id.Name == v
+}
+
+// [v] := [e] is a temporary of the statement [next]: used exactly once there and nowhere after it, and moving the
+// evaluation of e to the place of use changes nothing: next is `return c…, v` (the other results constants or
+// variables), or e calls nothing but append / len and next is a plain call / assignment / return whose other
+// operands are variables
+func c06SingleUseTemp(v string, e ast.Expr, next ast.Stmt, after []ast.Stmt) bool {
+	if c06Idents(&ast.BlockStmt{List: after})[v] {
+		return false
+	}
+	uses := 0
+	ast.Inspect(next, func(n ast.Node) bool {
+		if id, ok := n.(*ast.Ident); ok && id.Name == v {
+			uses++
+		}
+		return true
+	})
+	if uses != 1 || c06Written(next, false)[v] {
+		return false
+	}
+	simple := func(x ast.Expr) bool {
+		switch y := c06Unparen(x).(type) {
+		case *ast.Ident, *ast.BasicLit:
+			return true
+		case *ast.SelectorExpr:
+			_, ok := y.X.(*ast.Ident)
+			return ok
+		}
+		return false
+	}
+	callFree := true
+	ast.Inspect(e, func(n ast.Node) bool {
+		if c, ok := n.(*ast.CallExpr); ok {
+			if id, ok := c.Fun.(*ast.Ident); !ok || (id.Name != "len" && id.Name != "append") {
+				callFree = false
+			}
+		}
+		return callFree
+	})
+	switch x := next.(type) {
+	case *ast.ReturnStmt:
+		for _, r := range x.Results {
+			if !simple(r) {
+				return false
+			}
+		}
+		return true
+	case *ast.ExprStmt, *ast.AssignStmt:
+		if !callFree {
+			return false
+		}
+		var call *ast.CallExpr
+		if es, ok := x.(*ast.ExprStmt); ok {
+			call, _ = es.X.(*ast.CallExpr)
+		} else if as := x.(*ast.AssignStmt); len(as.Rhs) == 1 {
+			call, _ = as.Rhs[0].(*ast.CallExpr)
+			if call == nil {
+				return simple(as.Rhs[0]) // x = v
+			}
+			for _, lh := range as.Lhs {
+				if !simple(lh) {
+					return false
+				}
+			}
+		}
+		if call == nil {
+			return false
+		}
+		for _, a := range call.Args {
+			if u, ok := a.(*ast.UnaryExpr); ok && u.Op == token.AND {
+				a = u.X
+			}
+			if !simple(a) {
+				return false
+			}
+		}
+		return true
+	}
+	return false
 }
 
 // a comparison, a conjunction / disjunction / negation of such
